@@ -1,5 +1,6 @@
 //! Provides the core server functionality and manages the underlying Humphrey app.
 
+use humphrey::http::headers::HeaderType;
 use humphrey::http::{Request, Response, StatusCode};
 use humphrey::monitor::event::ToEventMask;
 use humphrey::monitor::MonitorConfig;
@@ -18,7 +19,7 @@ use crate::cache::Cache;
 use crate::config::{BlacklistMode, Config, ConfigSource, HostConfig, RouteType};
 use crate::logger::{monitor_thread, Logger};
 use crate::proxy::proxy_handler;
-use crate::r#static::{directory_handler, file_handler, redirect_handler};
+use crate::r#static::{directory_handler, file_handler, is_blacklisted, redirect_handler};
 
 use std::error::Error;
 use std::io::{Read, Write};
@@ -283,11 +284,27 @@ fn websocket_handler(
 
 fn inner_websocket_handler(
     request: Request,
-    stream: Stream,
+    mut stream: Stream,
     state: Arc<AppState>,
     host: usize,
     route: usize,
 ) {
+    // The blacklist applies to WebSocket connections as it does to every other kind of route
+    if is_blacklisted(&request, &state) {
+        state.logger.warn(format!(
+            "{}: Blacklisted IP attempted to open a WebSocket connection to {}",
+            request.address, request.uri
+        ));
+        let body = b"<h1>403 Forbidden</h1>";
+        let response: Vec<u8> = Response::new(StatusCode::Forbidden, body)
+            .with_header(HeaderType::ContentType, "text/html")
+            .with_header(HeaderType::ContentLength, body.len().to_string())
+            .with_header(HeaderType::Connection, "Close")
+            .into();
+        stream.write_all(&response).ok();
+        return;
+    }
+
     let route = state.config.get_route(host, route);
 
     if let Some(target) = route.websocket_proxy.as_ref() {
